@@ -299,22 +299,42 @@ type vMsgDesc struct {
 
 func (d *vMsgDesc) Name() protoreflect.Name { return d.name }
 
-// VerifC16Reserved: a message named like any reserved identifier stops the generator with a
-// diagnostic (log.Fatalf); any other name passes the guard.
+// VerifC16Reserved: a message whose Go type name is a reserved identifier stops the generator
+// with a diagnostic (log.Fatalf); any other name passes the guard. protoc-gen-go derives the Go
+// name by camel-casing the proto name, so "node", "quorum_spec" or "quorumSpec" collide with
+// the generated Node / QuorumSpec types exactly as "Node" / "QuorumSpec" do; the same holds
+// for a top-level enum. (The camel-casing itself - google.golang.org/protobuf/internal/strs -
+// is protobuf's and not part of the encoding: the harness states both names of each shape.)
 func VerifC16Reserved() {
-	k := vChoice("name", len(reservedIdents)+1)
-	name := "Harmless"
-	if k < len(reservedIdents) {
-		name = reservedIdents[k]
+	type shape struct{ proto, goName string }
+	var shapes []shape
+	for _, r := range reservedIdents {
+		lower := string(r[0]|0x20) + r[1:]
+		shapes = append(shapes, shape{r, r}, shape{lower, r})
+	}
+	shapes = append(shapes, shape{"quorum_spec", "QuorumSpec"}, shape{"quorumSpec", "QuorumSpec"})
+	free := []shape{{"Harmless", "Harmless"}, {"nodes", "Nodes"}, {"node_id", "NodeId"}, {"my_node", "MyNode"}}
+	k := vChoice("name", len(shapes)+len(free))
+	asEnum := vChoice("enum", 2) == 1
+	var sh shape
+	if k < len(shapes) {
+		sh = shapes[k]
+	} else {
+		sh = free[k-len(shapes)]
 	}
 	s := &vShape{quorumcall: true}
 	file := &protogen.File{
 		Services: []*protogen.Service{{Methods: []*protogen.Method{c16Method(s)}}},
-		Messages: []*protogen.Message{{Desc: &vMsgDesc{name: "Request"}}, {Desc: &vMsgDesc{name: protoreflect.Name(name)}}},
+		Messages: []*protogen.Message{{Desc: &vMsgDesc{name: "Request"}, GoIdent: protogen.GoIdent{GoName: "Request"}}},
+	}
+	if asEnum {
+		file.Enums = []*protogen.Enum{{Desc: &vEnumDesc{name: protoreflect.Name(sh.proto)}, GoIdent: protogen.GoIdent{GoName: sh.goName}}}
+	} else {
+		file.Messages = append(file.Messages, &protogen.Message{Desc: &vMsgDesc{name: protoreflect.Name(sh.proto)}, GoIdent: protogen.GoIdent{GoName: sh.goName}})
 	}
 	ok := false
 	stopped := vExpectPanic(func() { ok = gorumsGuard(file) })
-	if k < len(reservedIdents) {
+	if k < len(shapes) {
 		vReach("reserved-name")
 		vAssert(stopped, "C16.reserved-name-accepted")
 	} else {
@@ -322,6 +342,13 @@ func VerifC16Reserved() {
 		vAssert(!stopped && ok, "C16.free-name-rejected")
 	}
 }
+
+type vEnumDesc struct {
+	protoreflect.EnumDescriptor
+	name protoreflect.Name
+}
+
+func (d *vEnumDesc) Name() protoreflect.Name { return d.name }
 
 // VerifC16ExplicitFalse: one boolean option is spelt out as "= false" (the extension is present,
 // its value is false), every other option and the stream flags are symbolic. The documentation
